@@ -148,6 +148,12 @@ func (e *e2) judgeCheckpoint(hist []*HistEntry) {
 			delivered = append(delivered, de{ev.Cas, ev.Step})
 		}
 	}
+	for _, f := range e.failedStarts {
+		for _, ev := range dataEvents(f) {
+			got[fmt.Sprintf("%s/%d", ev.Key, ev.Cas)] = true
+			delivered = append(delivered, de{ev.Cas, ev.Step})
+		}
+	}
 	final := finalDocs(hist)
 	var keys []string
 	for ck := range final {
